@@ -25,6 +25,7 @@ def correspondence(rep, rng, tier):
   lat.correspondence(rep, rng, tier)
   c02s.correspondence_sigs(rep, rng, tier)
   chain.correspondence(rep, rng, tier)
+  chain.summarize(rep)
   margin.gated(rep, rng, tier)
 
 
